@@ -105,6 +105,21 @@ def r08_2(ctx):
                 m = None
             if m:
                 tested |= {int(x) for x in m.group(2).split("|")}
+    if not tested:
+        # the tail written with iterator adaptors: `.position(stop predicate)` and `.filter(line feed predicate).count()`
+        from . import predtable as pt
+        its = [it for it in ctx.ast.walkable("html5ever") if it["k"] == "Fn" and it["name"] == "data_state_simd_fast_path" and it.get("body") is not None]
+        for it in its:
+            for m, chain, clo in pt.closures_in(it, ("position", "find", "take_while", "filter", "any")):
+                try:
+                    ts = pt.truth_set(ctx, "html5ever", clo, False)
+                except AnchorMissing:
+                    ts = None
+                if ts is None:
+                    continue
+                if m == "take_while":
+                    ts = set(range(256)) - ts
+                tested |= ts
     stop_bytes = {ord(c) for c in STOP}
     ctx.ob("R08.2", "scalar-tail-stop-set", tested - {10} == stop_bytes, "scalar tail stops on %s" % sorted(chr(b) for b in tested - {10}))
     n += 1
